@@ -20,6 +20,8 @@ Fill(stored, pdu, bufsize) ==
 BitsSet(bytes) == UNION {{(i - 1) * 8 + x : x \in {y \in 0..7 : (bytes[i] \div (2 ^ y)) % 2 = 1}} : i \in DOMAIN bytes}
 
 DType(b) == LET c == b \div 32 IN IF c \in 1..6 THEN c ELSE 7
+(* error type of a channel-related block: 1..9 are named errors, 16..31 manufacturer specific, the rest reserved *)
+ErrClass(x) == IF x \in 1..9 THEN "named" ELSE IF x \in 16..31 THEN "vendor" ELSE "reserved"
 (* one block at 0-based offset off, or a stop *)
 BlockAt(buf, off) ==
   LET rem == SubSeq(buf, off + 1, Len(buf))
@@ -31,7 +33,7 @@ BlockAt(buf, off) ==
        [] kind = 2 -> IF Len(rem) < 3 THEN [k |-> "stop"]
                       ELSE [k |-> "channel", off |-> off, len |-> 3, module |-> rem[1] % 64, channel |-> rem[2] % 64,
                             input |-> (rem[2] \div 64) % 2 = 1, output |-> (rem[2] \div 128) % 2 = 1,
-                            dtype |-> DType(rem[3]), error |-> rem[3] % 32]
+                            dtype |-> DType(rem[3]), error |-> rem[3] % 32, errk |-> ErrClass(rem[3] % 32)]
        [] kind = 0 -> IF len = 0 \/ Len(rem) < len THEN [k |-> "stop"]
                       ELSE [k |-> "device", off |-> off, len |-> len, data |-> SubSeq(rem, 2, len)]
        [] OTHER    -> [k |-> "stop"]
